@@ -69,6 +69,23 @@ def run(chk, tier):
                             "status": fam.exp[p["id"]]["status"]})
         done += m
         k += 1
+    # 4. a sub-family dense in exceptions: throws are frequent, try expressions nest, every finally prints
+    ne = 60 if tier == "quick" else 600
+    eprogs = []
+    for i in range(ne):
+        g = progen.ProgGen(((chk.seed + 3) % 1000003) * 100003 + i, emph=("try",))
+        g.feat |= {"try", "fun"}
+        g.exns = g.exns or ["Ex0", "Ex1", "Ex2"]
+        eprogs.append(g.program("x%d" % i))
+    # ... and one dense in element / field stores whose right-hand sides are conditionals or blocks with effects
+    for i in range(ne // 2):
+        g = progen.ProgGen(((chk.seed + 5) % 1000003) * 100003 + i, emph=("store",))
+        g.feat |= {"arr", "rec", "fun", "un"}
+        eprogs.append(g.program("s%d" % i))
+    fame = progcheck.Family(chk, eprogs, "exceptions", workers=vlib.NCPU, timeout=1500)
+    for s_, c in fame.status_count.items():
+        per["exn:" + s_] = c
+    progcheck.replay(chk, b, fame, routes, wd)
     chk.extra["programs_by_status"] = per
     chk.extra["routes"] = [r[0] for r in routes]
     chk.rule = ("programs drawn per seed from the typed grammar (features drawn per program), each evaluated by TLC under both extreme "
